@@ -10,7 +10,11 @@ print("| id | what the change does | needs, to manifest | caught by (violation k
 print("|----|----------------------|--------------------|-----------------------------|")
 n = c = nb = qb = 0
 for f in sorted(glob.glob(os.path.join(VERIF, "seeded", "*", "meta.json"))):
-    m = json.load(open(f)); n += 1
+    m = json.load(open(f))
+    if m.get("obsolete"):
+        print(f"| {m['id']} | (obsolete) | {m['obsolete'][:300].replace('|','/')} | - |")
+        continue
+    n += 1
     det = res.get("seeded/" + m["id"], {}).get("checks") or m.get("detection", {})
     hits = [f"{k}: {', '.join(v['violations'][:3])}" for k, v in det.items() if v["exit"] == 1]
     if m.get("benign"):
